@@ -14,7 +14,7 @@ from hv.builders import qcow2 as bq
 from hv.builders import vdi as bvdi
 from hv.builders import vhdx as bvhdx
 from hv.builders import vmdk as bvmdk
-from hv.core import Outcome, check_reads, lib
+from hv.core import DEBUG_LOG_ENV, Outcome, check_reads, lib
 from hv.props import c01, c02, c03, c05, c06
 from hv.sparse import Extents, Overlay, copy_shifted
 
@@ -41,6 +41,15 @@ FAMILIES = ["vdi", "qcow2", "qcow2-snap", "vhdx", "vmdk", "hdd"]
 
 def budget(tier):
     return 6000 if tier == "quick" else 40000
+
+
+VARIANT_DISTINCT_SEEDS = True
+
+
+def variants(tier):
+    # which layer answers must not depend on the package's logging switches
+    return [{"name": "default", "env": {}, "shards": 12},
+            {"name": "debug-logging", "env": DEBUG_LOG_ENV, "args": {"budget_scale": 0.25}, "shards": 4}]
 
 
 def max_depth(tier):
